@@ -1053,6 +1053,11 @@ def expand(prog: 'object') -> list[str]:
                 localnames.restore_function(caller.qualname, caller.node, log)
             except Exception as e:  # noqa: BLE001
                 log.append(f'{caller.short}: name restoration after expansion skipped ({type(e).__name__}: {e})')
+            try:
+                # a table that a helper returned (or a parameter that became a constant table) can be unrolled now
+                normalize._unroll(caller.node, normalize._module_consts(prog.modules[caller.module].tree), log)      # type: ignore[attr-defined]
+            except Exception as e:  # noqa: BLE001
+                log.append(f'{caller.short}: unrolling after expansion skipped ({type(e).__name__}: {e})')
             normalize._fold(caller.node, keep_)      # constants substituted for parameters: getattr(o, f'_{k}') etc. fold now
             try:
                 # the spliced code comes from functions outside the inventory: give it the inventory spelling of the
